@@ -25,7 +25,7 @@ impl UV_ for Mono {
 struct ValueCoster;
 impl Coster_ for ValueCoster {
     type Value = u64;
-    fn cost(&self, v: &u64) -> i64 { (*v % 7) as i64 + 1 }
+    fn cost(&self, v: &u64) -> i64 { (*v % 7) as i64 } // 0..6: an entry may be charged nothing at all
 }
 
 /// index = the key itself; conflict hash 0 (the transparent builder's) or a non-zero function of the key (like the default builder)
@@ -142,7 +142,7 @@ fn cache_at_quiescence_matches_model() {
                     let r = if with_ttl { c.insert_with_ttl(k, next_val, cost, Duration::from_secs(3600)) } else { c.insert(k, next_val, cost) };
                     script.push(format!("insert{}({}, {}, cost {}) -> {}", if with_ttl { "_with_ttl[1h]" } else { "" }, k, next_val, cost, r));
                     if r { accepted.push(next_val); }
-                    let charged = internal(if cost == 0 { (next_val % 7) as i64 + 1 } else { cost });
+                    let charged = internal(if cost == 0 { (next_val % 7) as i64 } else { cost });
                     let vetoed = veto && prev_val.map_or(false, |p| next_val < p);
                     if charged > c.policy.max_cost() { c04_applies = false; }
                     if r && !vetoed { last.insert(k, (next_val, charged)); has_ttl.insert(k, with_ttl); }
